@@ -39,15 +39,25 @@ def hook(w, label):
         viol = W.monitor_tables(w)
     except Exception as e:        # the monitor reads live tables; a failure here is a harness problem
         raise
-    # note peers that have (had) two connections at once: the known simultaneous-open hole
-    names = {}
-    for c in w.node.connections.values():
-        n = c.node_name or c.host_identity
-        if n:
-            names[n] = names.get(n, 0) + 1
-    for n, k in names.items():
-        if k > 1:
-            _collector["simultaneous"].add(n)
+    # peers that have (had) two transport connections at once - the known simultaneous-open hole.
+    # Derived from the ordered log of the virtual socket layer (not from the node's tables).
+    by_cid = {c.remote.cid: c for c in w.conns}
+    live: dict = {}
+    for (t, kind, cid, data) in w.net.log:
+        if kind == "connect":
+            ip = data[0]
+            name = f"peer{ip.split('.')[-1]}.example"
+            live.setdefault(name, set()).add(cid)
+        elif kind == "feed" and cid in by_cid and by_cid[cid].remote.direction == "in":
+            name = by_cid[cid].host or getattr(by_cid[cid], "host5010", None)
+            if name:
+                live.setdefault(name, set()).add(cid)
+        elif kind == "close" and cid is not None:
+            for sset in live.values():
+                sset.discard(cid)
+        for name, sset in live.items():
+            if len(sset) > 1:
+                _collector["simultaneous"].add(name)
     for sig, detail in viol:
         peer_name = detail.split(":")[0].split(" ")[0].split(".connection")[0]
         tag = ""
